@@ -12,9 +12,9 @@ import (
 //
 // Per handler it remembers, for every epoch (attester, proposer) or period (sync committee) that is
 // not in the past, the most recently *successfully* fetched assignment, the committee-active set
-// that was in force at that fetch, and whether a reorg / indices-change notice has arrived since
-// ("dirty"). From that it decides, for every dispatch, the three unconditional safety clauses, and
-// at the end of every tick the "exactly once" clause in its weakest reading (DESIGN §3 C16).
+// that was in force at that fetch, and whether a notice that concerns this epoch/period has arrived
+// since ("dirty", see notice()). From that it decides, for every dispatch, the three unconditional
+// safety clauses, and at the end of every tick the "exactly once" clause (see judge()).
 
 type handlerKind int
 
@@ -64,9 +64,13 @@ func (k handlerKind) window() int {
 type assignment struct {
 	pairs     map[[2]int]bool // (validator, slot); slot = 0 for sync committee (every slot of the period)
 	committee map[int]bool
-	dirty     bool // a reorg / indices-change notice arrived after this fetch
-	// refetchFailed: after that notice a re-fetch of this epoch/period was attempted and failed.
-	// Only used to split the "excused" outcomes in the histogram; it never makes a verdict.
+	// dirty: a notice that entitles the handler to drop this assignment arrived after the fetch.
+	dirty bool
+	// dirtyAfterTick: an indices-change notice arrived; the handlers' contract is "execute, reset,
+	// fetch", so the assignment of the current epoch/period stays binding for the next tick and
+	// becomes dirty when that tick has been processed.
+	dirtyAfterTick bool
+	// refetchFailed: after the notice a re-fetch of this epoch/period was attempted and failed.
 	refetchFailed bool
 }
 
@@ -96,9 +100,35 @@ func (m *model) applyFetch(r rec) *assignment {
 	return a
 }
 
-func (m *model) markDirty() {
-	for _, a := range m.fetched {
-		a.dirty = true
+// notice records a reorg / indices-change notice. Which assignments it entitles the handler to
+// drop follows the handlers' documented contract (the comments on HandleDuties) and what the
+// dependent roots mean:
+//   attester  reorg-previous: the epoch of the notice and later ones; reorg-current: later epochs
+//             only (the current epoch's attester duties depend on the previous root)
+//   proposer  reorg-current: the epoch of the notice (and later); reorg-previous: nothing
+//   sync      reorg-current: later periods only; reorg-previous: nothing
+//   all       indices-change: later epochs/periods at once; the current one only after the next
+//             tick has executed from it ("1. execute 2. reset 3. fetch")
+// slot is the slot the notice carries (= the clock).
+func (m *model) notice(e byte, slot int) {
+	cur := m.kind.unitOfSlot(slot)
+	for u, a := range m.fetched {
+		switch e {
+		case evReorgPrev:
+			if m.kind == kindAttester && u >= cur {
+				a.dirty = true
+			}
+		case evReorgCur:
+			if (m.kind == kindProposer && u >= cur) || (m.kind != kindProposer && u > cur) {
+				a.dirty = true
+			}
+		case evIndices:
+			if u > cur {
+				a.dirty = true
+			} else if u == cur {
+				a.dirtyAfterTick = true
+			}
+		}
 	}
 }
 
@@ -131,6 +161,9 @@ func (m *model) dump() string {
 		}
 		sort.Ints(cs)
 		fmt.Fprintf(&b, "u%d%v c%v d%t", u, ps, cs, a.dirty)
+		if a.dirtyAfterTick {
+			b.WriteString(" dirty-after-tick")
+		}
 		if a.refetchFailed {
 			b.WriteString(" refetch-failed")
 		}
@@ -139,10 +172,10 @@ func (m *model) dump() string {
 	return b.String()
 }
 
-// labelDropped: the handler dropped an assignment on a notice and has not tried to fetch it again
-// up to and including the duty's tick. Excused by the weakest reading of "exactly once" (DESIGN);
-// counted, and one trace per handler is kept in the evidence as an observation.
-const labelDropped = "not-dispatched/notice-since-fetch,no-re-fetch-attempted(excused-by-weakest-reading)"
+// labelLate: the handler dropped an assignment on a notice and fetched it again only after the
+// execution step of the duty's tick (excused: the handler is re-fetching; one trace per handler is
+// kept in the evidence as an observation).
+const labelLate = "not-dispatched/dropped-on-notice,re-fetched-after-execution-in-this-tick(excused)"
 
 type violation struct {
 	clause string
@@ -152,7 +185,9 @@ type violation struct {
 // judge evaluates one event: `log` is what the handler did while processing it, in order.
 // isTick/slot describe the event; the clock equals slot during a tick.
 // It returns the first violation (or nil) and the outcome labels of this event for the histogram.
-func (m *model) judge(isTick bool, slot int, log []rec) (*violation, []string) {
+// held: the duties (validator, slot) - slot 0 for sync committee - of the tick's epoch/period that
+// the real duty store contained, marked in-committee, when the tick was delivered.
+func (m *model) judge(isTick bool, slot int, log []rec, held map[[2]int]bool) (*violation, []string) {
 	k := m.kind
 	var labels []string
 	var snap *assignment
@@ -174,7 +209,7 @@ func (m *model) judge(isTick bool, slot int, log []rec) (*violation, []string) {
 		case recFetch:
 			if !r.ok {
 				labels = append(labels, "fetch-failed")
-				if a := m.fetched[k.unitOfFetch(r.epoch)]; a != nil && a.dirty {
+				if a := m.fetched[k.unitOfFetch(r.epoch)]; a != nil && (a.dirty || a.dirtyAfterTick) {
 					a.refetchFailed = true
 				}
 				continue
@@ -229,9 +264,16 @@ func (m *model) judge(isTick bool, slot int, log []rec) (*violation, []string) {
 	if !isTick {
 		return viol, labels
 	}
-	// "exactly once", weakest reading: the duty was in an assignment fetched successfully before
-	// this tick, no reorg / indices-change notice has arrived since that fetch, and every re-fetch
-	// inside this tick confirmed it (a re-fetch that drops the duty makes not dispatching right).
+	// "exactly once". A duty binds at tick(slot) when it is in the assignment of its epoch/period
+	// that was fetched successfully before this tick, its validator was committee-active at that
+	// fetch, every re-fetch inside this tick confirmed it (a re-fetch that drops the duty makes not
+	// dispatching right), and
+	//   (a) no notice entitling the handler to drop that assignment has arrived since (notice()), or
+	//   (b) the handler still held the duty in its store when the tick was delivered: whatever
+	//       arrived, a duty that is still there at its own tick must be executed before any reset.
+	// A duty that does not bind because of a notice is excused only while the handler is fetching
+	// again: if no fetch of that epoch/period has been attempted between the notice and the end of
+	// this tick, the assignment was dropped for good ("assignment-dropped-never-refetched").
 	if snap == nil && len(inTick) == 0 {
 		labels = append(labels, "tick-without-assignment")
 	}
@@ -258,28 +300,40 @@ func (m *model) judge(isTick bool, slot int, log []rec) (*violation, []string) {
 					confirmed = false
 				}
 			}
-			obligated := !snap.dirty && confirmed
+			isHeld := held[[2]int{v, slot}] || (k == kindSync && held[[2]int{v, 0}])
+			obligated := confirmed && (!snap.dirty || isHeld)
 			for _, ro := range k.roles() {
 				n := count[dkey(ro, v)]
 				switch {
-				case n >= 1 && obligated:
+				case n >= 1 && obligated && !snap.dirty:
 					labels = append(labels, "dispatched/obligated")
+				case n >= 1 && obligated:
+					labels = append(labels, "dispatched/obligated(still-held-after-notice)")
 				case n >= 1 && snap.dirty:
 					labels = append(labels, "dispatched/not-obligated(notice-since-fetch)")
 				case n >= 1:
 					labels = append(labels, "dispatched/then-dropped-by-refetch-in-tick")
+				case obligated && !snap.dirty:
+					fail("missed-dispatch", "%s duty of validator %d at slot %d not dispatched although its assignment was fetched before the tick and no notice concerning it arrived since", ro, v, slot)
 				case obligated:
-					fail("missed-dispatch", "%s duty of validator %d at slot %d not dispatched although its assignment was fetched before the tick and no reorg/indices notice arrived since", ro, v, slot)
+					fail("missed-dispatch", "%s duty of validator %d at slot %d not dispatched although the handler still held it in its duty store when the tick of its slot was delivered", ro, v, slot)
 				case !confirmed:
 					labels = append(labels, "not-dispatched/dropped-by-refetch-in-tick")
 				case len(inTick) > 0:
-					labels = append(labels, "not-dispatched/notice-since-fetch,re-fetched-after-execution-in-this-tick(excused)")
+					labels = append(labels, labelLate)
 				case snap.refetchFailed:
-					labels = append(labels, "not-dispatched/notice-since-fetch,re-fetch-failed(excused)")
+					labels = append(labels, "not-dispatched/dropped-on-notice,re-fetch-failed(excused)")
 				default:
-					labels = append(labels, labelDropped)
+					fail("assignment-dropped-never-refetched", "%s duty of validator %d at slot %d not dispatched: its assignment had been fetched successfully, a notice made the handler drop it, and no fetch of that epoch/period has been attempted since", ro, v, slot)
 				}
 			}
+		}
+	}
+	// an indices-change notice takes effect on the current epoch/period once a tick has executed
+	for _, a := range m.fetched {
+		if a.dirtyAfterTick {
+			a.dirtyAfterTick = false
+			a.dirty = true
 		}
 	}
 	sort.Strings(labels)
